@@ -50,6 +50,16 @@ func WorkerMain(args []string) int {
 	if err == nil {
 		c.journal = j
 	}
+	limit := 120 * time.Second
+	if v := os.Getenv("VERIF_CASE_TIMEOUT_S"); v != "" {
+		if n, err := strconv.Atoi(v); err == nil {
+			limit = time.Duration(n) * time.Second
+		}
+	}
+	if wp, ok := p.(interface{ CaseTimeout() time.Duration }); ok {
+		limit = wp.CaseTimeout()
+	}
+	StartCaseWatchdog(limit)
 	p.RunBatch(c)
 	return writeResult(args[5], c.finish())
 }
@@ -129,6 +139,9 @@ func runChild(timeout time.Duration, outFile string, args ...string) childOutcom
 	}
 	if err != nil || rerr != nil {
 		o.died = true
+		// keep the full output of a dead child for diagnosis (not evidence)
+		name := "died-" + strings.Join(args[:min(len(args), 5)], "-") + ".log"
+		_ = os.WriteFile(filepath.Join(Root(), ".build", strings.ReplaceAll(name, "/", "_")), buf.Bytes(), 0o644)
 	}
 	return o
 }
